@@ -97,7 +97,32 @@ def main():
                 os.makedirs(search_root)
                 os.symlink(os.path.join('..', 'src', real_comps[0]), os.path.join(search_root, comps[0]))
             try:
-                if c.get('via_find'):
+                if c.get('via_main'):
+                    # the whole glue of `kernprof -l -p <pkg> -m <module>`: the file main() hands to the auto-profiling
+                    # runner (captured; nothing is executed)
+                    from line_profiler.autoprofile import autoprofile as AP
+                    seen = {}
+
+                    def fake_run(script_file, ns, prof_mod=None, profile_imports=False, as_module=False):
+                        seen['script_file'] = script_file
+                    orig_run, old_cwd, old_argv, old_path = AP.run, os.getcwd(), list(sys.argv), list(sys.path)
+                    AP.run = fake_run
+                    os.chdir(search_root)
+                    try:
+                        modname = '.'.join(comps + ([] if stem == '__init__' else [stem]))
+                        try:
+                            kernprof.main(['-l', '-o', os.path.join(base, 'out.lprof'), '-p', comps[0], '-m', modname])
+                        except SystemExit:
+                            pass
+                    finally:
+                        AP.run = orig_run
+                        os.chdir(old_cwd)
+                        sys.argv[:] = old_argv
+                        sys.path[:] = old_path
+                        import builtins
+                        builtins.__dict__.pop('profile', None)
+                    use = seen['script_file']
+                elif c.get('via_find'):
                     old_path = list(sys.path)
                     sys.path.insert(0, search_root)
                     try:
